@@ -194,6 +194,16 @@ def run(chk: Check):
             cfg.pop("model", None); cfg.pop("agent_eps", None)
             n = 6
             chk.count("history_of_more_than_600_points_before_the_surrogates")
+        if i in (10, 11):
+            # a line-up that schedules a history-dependent sampler before the history has enough points for it ("any order, any batch sizes"): the library refuses
+            # with a ValueError - or does whatever else it does - identically in both runs (i = 11: the RL agent may pick best-batch right after the one-point bootstrap)
+            cfg["lineup"] = ([("BestBatchSampler", 3, None), ("HaltonSampler", 2, None), ("RandomUniformSampler", 2, None)] if i == 10 and rng.random() < 0.5 else
+                             [("HaltonSampler", 2, None), ("BestBatchSampler", 4, None), ("RandomUniformSampler", 2, None)] if i == 10 else
+                             [("BestBatchSampler", 2, None), ("BestBatchSampler", 3, None), ("RandomUniformSampler", 2, None)])
+            cfg["dims"], cfg["ensemble"], cfg["loss"] = 2, 1, "minkowski"
+            cfg.pop("model", None); cfg["may_raise"] = True
+            n = 4
+            chk.count("lineup:history_dependent_sampler_scheduled_too_early")
         # the process-wide generators (numpy's legacy global stream, Python's random module) are nobody's configuration: they differ between the two runs of a pair
         import random as _random
         np.random.seed(1234 + i); _random.seed(1234 + i)
